@@ -2,7 +2,7 @@
   `#write_audit "Cxx"`: at elaboration time, list every theorem of the current
   module whose name lives in namespace `ALV.Props.Cxx`, with the axioms it
   depends on (`Lean.collectAxioms`) and its pretty-printed statement, and
-  write the result to `.audit/Cxx.json` (relative to the lake project root).
+  write the result to `.lake/build/audit/Cxx.json` (relative to the lake project root).
 -/
 import Lean
 
@@ -34,8 +34,8 @@ elab "#write_audit " tag:str : command => do
           ("statement", Json.str stmt)])
       | _ => pure ()
   let out := Json.mkObj [("tag", Json.str t), ("theorems", Json.arr items)]
-  IO.FS.createDirAll ".audit"
-  IO.FS.writeFile s!".audit/{t}.json" out.pretty
+  IO.FS.createDirAll ".lake/build/audit"
+  IO.FS.writeFile s!".lake/build/audit/{t}.json" out.pretty
   logInfo m!"audit {t}: {items.size} theorems"
 
 end ALV.Audit
